@@ -930,11 +930,12 @@ protected:
 	// convert to native unsigned integer: the value x[0] + x[1] + x[2] + x[3] truncated toward zero
 	template<typename Unsigned>
 	Unsigned convert_to_unsigned() const noexcept {
-		int64_t sum = 0;
+		uint64_t sum = 0;
 		bool decided = false;
 		for (int i = 0; i < 4; ++i) {
 			double t = std::trunc(x[i]);
-			sum += static_cast<int64_t>(t);
+			// values in [2^63, 2^64) are in range of uint64_t but not of int64_t
+			sum += (t < 9223372036854775808.0) ? static_cast<uint64_t>(static_cast<int64_t>(t)) : static_cast<uint64_t>(t);
 			// the first limb with a fraction decides: a fraction with the opposite sign puts the value on the near side of the integer
 			double f = x[i] - t;
 			if (!decided && f != 0.0) {
